@@ -726,9 +726,35 @@ def _layout(ctx):
             out['timestep'] = k
         elif isinstance(e, ast.Attribute) and isinstance(e.value, ast.Name):
             out.setdefault(e.attr, k)
-    for need in ('timestep', 'flow_rate', 'avg_coolant_temp'):
+    for need in ('timestep', 'flow_rate'):
         if need not in out:
             raise AnalysisError('_read_dassh_results: column of %s' % need)
+    if 'avg_coolant_temp' not in out:
+        # the flows that are rescaled are TOTAL assembly flows (bundle +
+        # bypass), so the outlet temperature stored with them must be the
+        # mixed mean of the whole assembly; any other attribute in that slot
+        # is the regression this rule exists for, not a lost anchor
+        temps = [(k, e) for k, e in enumerate(rows[0].elts)
+                 if isinstance(e, ast.Attribute) and 'temp' in e.attr
+                 and 'avg' in e.attr]
+        ctx.violation(
+            RULE, fi, rows[0],
+            'the outlet temperature stored with the total flow of an '
+            'assembly must be its overall mixed-mean coolant temperature '
+            '`avg_coolant_temp` (bundle and bypass together): the rows built '
+            'here carry %s instead, so the total flow rescaled by '
+            '(T_out_prev - T_in)/(T_target - T_in) is not the one the bulk '
+            'outlet temperature target requires'
+            % (', '.join('`%s`' % _s(e) for _, e in temps) or
+               'no average coolant temperature'),
+            key=fi.full + ' | bulk outlet temperature column')
+        if len(temps) != 1:
+            raise AnalysisError('_read_dassh_results: column of the bulk '
+                                'outlet temperature')
+        out['avg_coolant_temp'] = temps[0][0]
+    else:
+        ctx.ok(RULE, fi, rows[0], 'outlet temperature column is '
+               'avg_coolant_temp (column %d)' % out['avg_coolant_temp'])
     return out
 
 
